@@ -43,7 +43,7 @@ Print Assumptions C19_with_capacity.
 
 (* ---- tie to the source text: the functions below are parsed from /repo/src on every run
    (tools/rs2v.py -> LeafActual.v) and evaluated by RustSem.eval ---- *)
-From BV Require Import RustSem ConstsActual LeafActual LeafActualOk.
+From BV Require Import RustSem ConstsActual LeafActual LeafActualOk VecSourceOk.
 From Coq Require Import String.
 Open Scope string_scope.
 Open Scope N_scope.
